@@ -60,10 +60,10 @@ C13_OPS = [
     "to_dict", "from_strings", "to_str_list", "parse", "write_file", "read_file", "tl_or", "tl_sub", "tl_and", "construct",
 ]
 # queries: named by C13's statement ("query"), not by its operation list; they run in C13 sessions too
-C13_QUERY_OPS = ["compound_misc", "compound_file", "contains_behavior", "evaluate", "is_empty", "contains_environment", "contains_implementation", "vertices",
+C13_QUERY_OPS = ["c_vars", "tl_vars", "c_hash", "compound_misc", "compound_file", "contains_behavior", "evaluate", "is_empty", "contains_environment", "contains_implementation", "vertices",
                  "compound_from_strings", "compound_merge", "compound_le", "c_eq", "tl_eq", "c_str"]
 # further public operations in C14's quantifier
-C14_EXTRA_OPS = ["compound_misc", "compound_file", "contains_behavior", "evaluate", "is_empty", "compound_from_strings", "compound_merge", "compound_le",
+C14_EXTRA_OPS = ["c_vars", "tl_vars", "compound_misc", "compound_file", "contains_behavior", "evaluate", "is_empty", "compound_from_strings", "compound_merge", "compound_le",
                  "vertices", "contains_environment", "contains_implementation", "validate_dict", "c_eq", "tl_eq", "c_str", "c_hash"]
 
 
@@ -187,6 +187,10 @@ def call(name: str, a: Dict[str, Any]) -> Any:  # noqa: WPS212, WPS231
         return str(a["self"])
     if name == "c_hash":
         return isinstance(hash(a["self"]), int)
+    if name == "c_vars":
+        return [a["self"].vars, a["self"].a.vars, a["self"].g.vars]
+    if name == "tl_vars":
+        return [a["self"].vars, [t.vars for t in a["self"].terms]]
     raise HarnessError("unknown op %s" % name)
 
 
@@ -315,6 +319,8 @@ def gen_initial_pool(rs) -> Dict[str, Dict]:
             outs = rs.sample(free, min(len(free), rs.choice([1, 1, 2])))
         else:
             outs = rs.sample(names, rs.choice([1, 2]))
+        if rs.random() < 0.07:
+            outs = []  # a pure environment / monitor contract: legal, unusual
         produced.extend(o for o in outs if o not in produced)
         cand = [n for n in names if n not in outs]
         pref = [n for n in produced if n not in outs]
@@ -656,11 +662,11 @@ def gen_step(rs, view: View, allowed_ops: List[str], weights: Optional[Dict[str,
         A["src"] = _lit(Var(src))
         A["tgt"] = _lit(Var(tgt))
         step["dst"] = dstL
-    elif name in ("copy", "to_machine_dict", "to_dict", "c_str", "c_hash"):
+    elif name in ("copy", "to_machine_dict", "to_dict", "c_str", "c_hash", "c_vars"):
         A["self"] = {"slot": ci}
         if name == "copy":
             step["dst"] = dstC
-    elif name in ("tl_copy", "term_copy", "to_str_list", "is_empty"):
+    elif name in ("tl_copy", "term_copy", "to_str_list", "is_empty", "tl_vars"):
         A["self"] = {"slot": li}
         if name == "tl_copy":
             step["dst"] = dstL
